@@ -135,6 +135,17 @@ func CheckC14(r *Run) int {
 				return p
 			}
 		}
+		// how the process was started and where: nothing of it may show in the output
+		// (paired with the directory choice instead of multiplied with it)
+		argv0, cwd := "tsh", "/"
+		switch dir {
+		case "/work":
+			argv0, cwd = c.FS.Exe, "/work"
+		case "rel/sub":
+			argv0, cwd = "./bin/tsh", "/work"
+		}
+		c.Args = []gosym.Str{gosym.Conc(argv0), gosym.Conc("-x")}
+		c.FS.Cwd = cwd
 		// history on one transpiler object, fresh converter per call
 		tp := c.NewTranspiler()
 		type res struct {
@@ -155,8 +166,10 @@ func CheckC14(r *Run) int {
 			}
 			got = append(got, rr)
 		}
-		// the same calls alone: fresh transpiler, canonical map order, canonical location
+		// the same calls alone: fresh transpiler, canonical map order, canonical location and start
 		c.MapPerm = nil
+		c.Args = []gosym.Str{gosym.Conc(c.FS.Exe)}
+		c.FS.Cwd = "/work"
 		B := c.B
 		for i, cl := range hist {
 			c.ResetPackageState() // the reference call runs as in a fresh process
@@ -184,9 +197,12 @@ func CheckC14(r *Run) int {
 				}
 			}
 			if what != "" {
-				res, m := c.Sat(cond)
+				var res sym.Result
+				var m map[string]uint64
 				if cond == nil {
 					res, m = c.Sat()
+				} else {
+					res, m = c.Sat(cond)
 				}
 				if res == sym.Sat {
 					lits := map[string]int64{}
